@@ -38,9 +38,9 @@ def tree(node):
     return ["msgroot"]
 
 
-def run_trial(msgs, order, ids):
+def run_trial(msgs, order, ids, nu=None):
     byid = {m["id"]: m for m in msgs}
-    nu = len(order)
+    nu = nu or len(order)
     uid = order
     parser = Parser()
     adds = []
